@@ -41,18 +41,25 @@ def search(pid, record):
                     w["cmd"] = "replayer frame-one %s %d" % (w["input_hex"], w["offset"])
                     return w
         if p.returncode != 0:
-            return {"found": True, "scenario": "frame-search", "kind": "process-died",
+            return {"found": True, "scenario": "frame-search", "kind": "process-died", "props": "C07,C10",
                     "observed": "replayer frame-search exited with %d: %s" % (p.returncode, p.stderr[-300:]),
                     "expected": "no abort"}
         # unbounded recursion shows only as a process abort
         d = _run(binary, ["frame-deep", "200000"])
         if d.returncode != 0:
-            return {"found": True, "scenario": "frame-deep", "kind": "stack-exhaustion", "depth": 200000,
+            return {"found": True, "scenario": "frame-deep", "kind": "stack-exhaustion", "depth": 200000, "props": "C07,C10",
                     "input": "b\"*1\\r\\n\" x 200000 + b\":1\\r\\n\"",
                     "observed": "process terminated with status %d (%s)" % (d.returncode, d.stderr.strip()[-200:]),
                     "expected": "a frame, Incomplete or an error"}
         last = [l for l in p.stdout.splitlines() if l.startswith("{")]
         return json.loads(last[-1]) if last else {"found": False}
+    if pid in ("C08", "C06") and record.get("file", "").endswith("connection.rs") and str(record.get("obligation", "")).endswith("contracts_applicable"):
+        p0 = _run(binary, ["frame-search"])
+        for line in p0.stdout.splitlines():
+            if line.startswith("{") and json.loads(line).get("found"):
+                w = json.loads(line)
+                w["scenario"] = "frame-one"
+                return w
     if pid in ("C08", "C06") and record.get("file", "").endswith("connection.rs"):
         p = _run(binary, ["conn-search"])
         for line in p.stdout.splitlines():
@@ -70,7 +77,7 @@ def search(pid, record):
             if line.startswith("{"):
                 last = json.loads(line)
         if p.returncode != 0:
-            return {"found": True, "scenario": "store-search", "seed": seed, "kind": "process-died",
+            return {"found": True, "scenario": "store-search", "seed": seed, "kind": "process-died", "props": "C01,C04",
                     "observed": "replayer store-search exited with %d: %s" % (p.returncode, p.stderr[-500:]), "expected": "no panic / abort"}
         if last and last.get("found"):
             last["scenario"] = "store-search"
